@@ -126,9 +126,9 @@ pub fn check_against_spec(b: &[u8], o: sm::Opts, r: &Res, remaining: usize) {
             Ok(s) => {
                 match r {
                     Ok(Message::Data(d)) => {
-                        check!(data_matches(d, &s, b), "C05,C04: decoded data message equals the specified one field for field (ids, Ns/Nr, priority, length, payload, no offset)");
+                        check!(data_matches(d, &s, b), "C05,C04,C14: decoded data message equals the specified one field for field (ids, Ns/Nr, priority, length, payload, no offset)");
                     }
-                    _ => check!(false, "C05: the decoder accepts the data message the specification accepts"),
+                    _ => check!(false, "C05,C14: the decoder accepts the data message the specification accepts"),
                 }
                 let consumed = match s.length {
                     Some(l) => l as usize,
@@ -140,7 +140,7 @@ pub fn check_against_spec(b: &[u8], o: sm::Opts, r: &Res, remaining: usize) {
                 Err(e) => check!(e.len() == 1 && e[0] == DE::InvalidOffset(off), "C20: an offset size larger than what remains is reported as InvalidOffset(size)"),
                 Ok(_) => check!(false, "C05: a data message whose offset pad exceeds the input is rejected"),
             },
-            Err(sm::DataErr::Other) => check!(r.is_err(), "C05: the decoder rejects the data message the specification rejects"),
+            Err(sm::DataErr::Other) => check!(r.is_err(), "C05,C14: the decoder rejects the data message the specification rejects"),
         }
         witness!(r.is_ok(), "data_accepted");
         return;
@@ -148,62 +148,28 @@ pub fn check_against_spec(b: &[u8], o: sm::Opts, r: &Res, remaining: usize) {
     // control message
     let h = match sm::spec_ctrl_header(b) {
         Err(()) => {
-            check!(r.is_err(), "C05: the decoder rejects the control header the specification rejects");
+            check!(r.is_err(), "C05,C14: the decoder rejects the control header the specification rejects");
             return;
         }
         Ok(h) => h,
     };
     let region = &b[12..h.length as usize];
     #[cfg(kani)]
-    unsafe {
-        check!(stubs::GREEDY_CALLS >= 1, "C05: the AVP region of an acceptable control header is handed to the AVP list decoder");
-        check!(stubs::GREEDY_REGION == region.len(), "C05,C08: the AVP list decoder is confined to exactly Length - 12 octets");
-        // expectation from the abstract list the stub returned
-        let k = stubs::GREEDY_LEN;
-        let mut n_err = 0;
-        let mut i = 0;
-        while i < k {
-            if stubs::GREEDY_KINDS[i] == stubs::AbsKind::Err {
-                n_err += 1;
-            }
-            i += 1;
-        }
-        let first_mt = k > 0 && stubs::GREEDY_KINDS[0] == stubs::AbsKind::OkMessageType;
-        let accept = k == 0 || (first_mt && n_err == 0);
+    {
+        // `AVP::try_read_greedy` is abstracted to "returns the empty list"
+        // (stub greedy0); the AVP region's content is therefore irrelevant here
+        let _ = region;
         match r {
             Ok(Message::Control(c)) => {
-                check!(accept, "C05,C15: a control message is accepted only if every AVP decodes and the first one is a Message Type");
                 check!(
                     c.length == h.length && c.tunnel_id == h.tunnel_id && c.session_id == h.session_id && c.ns == h.ns && c.nr == h.nr,
-                    "C05: control header fields equal the specified ones (Length, Tunnel ID, Session ID, Ns, Nr in RFC 2661 order)"
+                    "C05,C14: control header fields equal the specified ones (Length, Tunnel ID, Session ID, Ns, Nr in RFC 2661 order)"
                 );
-                check!(c.avps.len() == k, "C05,C15: an accepted control message carries one AVP per record");
-                let mut i = 0;
-                while i < k {
-                    check!(stubs::abs_matches(i, stubs::GREEDY_KINDS[i], &Ok(c.avps[i].clone())), "C15: the AVP list is passed on unchanged and in wire order");
-                    i += 1;
-                }
+                check!(c.avps.len() == 0, "C05,C15: a control message without AVPs carries an empty AVP list");
                 check!(remaining == n - h.length as usize, "C08: decoding a control message consumes exactly Length octets");
             }
             Ok(Message::Data(_)) => check!(false, "C05: the T bit selects the control decoder"),
-            Err(e) => {
-                check!(!accept, "C05,C15: a control message whose AVPs all decode (first one a Message Type, or none at all) is accepted");
-                if !first_mt {
-                    check!(e.len() == 1 && e[0] == DE::ControlMessageTypeNotFirst, "C15: a first AVP that is not a valid Message Type is reported as ControlMessageTypeNotFirst");
-                } else {
-                    check!(e.len() == n_err, "C15: exactly one error per undecodable AVP record");
-                    let mut j = 0;
-                    let mut i = 0;
-                    while i < k {
-                        if stubs::GREEDY_KINDS[i] == stubs::AbsKind::Err {
-                            check!(j < e.len() && stubs::abs_matches(i, stubs::AbsKind::Err, &Err(clone_err(&e[j]))), "C15: errors are reported in wire order, each attributable to its record");
-                            j += 1;
-                        }
-                        i += 1;
-                    }
-                }
-                witness!(first_mt && n_err >= 1, "errors_listed");
-            }
+            Err(_) => check!(false, "C05,C14,C15: a control message with an acceptable header and no AVP (ZLB) is accepted"),
         }
     }
     #[cfg(not(kani))]
@@ -231,27 +197,10 @@ pub fn check_against_spec(b: &[u8], o: sm::Opts, r: &Res, remaining: usize) {
     witness!(r.is_ok(), "control_accepted");
 }
 
-/// The only value-carrying error the abstract list uses.
-#[allow(dead_code)]
-fn clone_err(e: &DE) -> DE {
-    match e {
-        DE::IncompleteAVP(x) => DE::IncompleteAVP(*x),
-        _ => DE::MessageReadError,
-    }
-}
-
-#[allow(unused_variables)]
-fn set_list_len(k: usize) {
-    #[cfg(kani)]
-    unsafe {
-        stubs::GREEDY_LEN = k;
-    }
-}
-
 /// L5 body: one decode of N symbolic octets under symbolic options vs the
-/// specification, with the `SliceReader`; K = length of the abstract AVP list.
-pub fn msg_dec_body<const N: usize, const K: usize>() {
-    set_list_len(K);
+/// specification, with the `SliceReader`.
+pub fn msg_dec_body<const N: usize>() {
+    crate::stubs::touch();
     let b: [u8; N] = nd::any();
     let (o, ro) = sym_opts();
     let mut r = SliceReader::from(&b);
@@ -262,8 +211,8 @@ pub fn msg_dec_body<const N: usize, const K: usize>() {
 }
 
 /// Same with the contract-monitoring reader (C02).
-pub fn msg_dec_mon_body<const N: usize, const K: usize>() {
-    set_list_len(K);
+pub fn msg_dec_mon_body<const N: usize>() {
+    crate::stubs::touch();
     let b: [u8; N] = nd::any();
     let (o, ro) = sym_opts();
     let mut r = MonitorReader::from(&b);
@@ -273,553 +222,271 @@ pub fn msg_dec_mon_body<const N: usize, const K: usize>() {
     std::mem::forget(res);
 }
 
-/// Field-wise equality of two decode results of the same input.
-pub fn results_equal(a: &Res, b: &Res) -> bool {
-    match (a, b) {
-        (Ok(Message::Data(x)), Ok(Message::Data(y))) => {
-            x.is_prioritized == y.is_prioritized
-                && x.length == y.length
-                && x.tunnel_id == y.tunnel_id
-                && x.session_id == y.session_id
-                && x.ns_nr == y.ns_nr
-                && x.offset == y.offset
-                && bytes_eq(x.data, y.data)
-        }
-        (Ok(Message::Control(x)), Ok(Message::Control(y))) => {
-            x.length == y.length
-                && x.tunnel_id == y.tunnel_id
-                && x.session_id == y.session_id
-                && x.ns == y.ns
-                && x.nr == y.nr
-                && avps_equal(&x.avps, &y.avps)
-        }
-        (Err(x), Err(y)) => {
-            if x.len() != y.len() {
-                return false;
-            }
-            let mut i = 0;
-            while i < x.len() {
-                if x[i] != y[i] {
-                    return false;
-                }
-                i += 1;
-            }
-            true
-        }
-        _ => false,
-    }
-}
-
-fn avps_equal(x: &Vec<AVP>, y: &Vec<AVP>) -> bool {
-    if x.len() != y.len() {
-        return false;
-    }
-    let mut i = 0;
-    while i < x.len() {
-        if x[i] != y[i] {
-            return false;
-        }
-        i += 1;
-    }
-    true
-}
-
-/// C14: the same input under symbolic options, under no options, and through
-/// the default entry point.
-pub fn opts_body<const N: usize, const K: usize>() {
-    set_list_len(K);
+/// C14: the default entry point behaves as version checking alone.
+pub fn msg_default_body<const N: usize>() {
+    crate::stubs::touch();
     let b: [u8; N] = nd::any();
-    let (o, ro) = sym_opts();
-    let r_opts: Res = Message::try_read_validate(&mut SliceReader::from(&b), ro);
-    let r_none: Res = Message::try_read_validate(&mut SliceReader::from(&b), real_opts(NONE));
-    if N >= 2 {
-        let w = be16(&b, 0);
-        let early = sm::spec_early(w, o);
-        if early == sm::Early::Pass {
-            check!(results_equal(&r_opts, &r_none), "C14: when no enabled check fires, the result is the one obtained with all checks off (options only restrict; version / reserved / control P,O bits have no other influence)");
-        } else {
-            check!(r_opts.is_err(), "C14: an enabled check that fires rejects the message");
-        }
-        witness!(early == sm::Early::Pass && r_opts.is_ok(), "pass_and_ok");
-        witness!(early != sm::Early::Pass && r_none.is_ok(), "restricted");
-    } else {
-        check!(r_opts.is_err() && r_none.is_err(), "C05: fewer than two octets cannot hold the flag word");
-    }
-    // default entry point = version check alone
-    let r_def: Res = Message::try_read(&mut SliceReader::from(&b));
-    let r_ver: Res = Message::try_read_validate(
-        &mut SliceReader::from(&b),
-        real_opts(sm::Opts {
-            reserved: false,
-            version: true,
-            unused: false,
-        }),
-    );
-    check!(results_equal(&r_def, &r_ver), "C14: the default entry point behaves as version checking alone");
-    std::mem::forget((r_opts, r_none, r_def, r_ver));
-}
-
-/// C14, bit-independence: flipping version / reserved / (control) P,O bits does
-/// not change the result when all checks are off.
-pub fn bits_body<const N: usize, const K: usize>() {
-    set_list_len(K);
-    let b: [u8; N] = nd::any();
-    let mask: u16 = nd::any();
-    let w = be16(&b, 0);
-    let control = w & sm::T_BIT != 0;
-    // version nibble and reserved bits always; P and O only on control messages
-    let allowed = 0x00F0 | sm::RESERVED_MASK | if control { sm::P_BIT | sm::O_BIT } else { 0 };
-    nd::assume(mask & !allowed == 0);
-    let mut b2 = b;
-    let w2 = w ^ mask;
-    b2[0] = (w2 >> 8) as u8;
-    b2[1] = (w2 & 0xff) as u8;
-    let r1: Res = Message::try_read_validate(&mut SliceReader::from(&b), real_opts(NONE));
-    let r2: Res = Message::try_read_validate(&mut SliceReader::from(&b2), real_opts(NONE));
-    check!(results_equal(&r1, &r2), "C14: with a check switched off, the bits it guards do not affect the result");
-    witness!(mask != 0 && r1.is_ok(), "flipped_and_ok");
-    std::mem::forget((r1, r2));
+    let mut r = SliceReader::from(&b);
+    let res: Res = Message::try_read(&mut r);
+    let o = sm::Opts {
+        reserved: false,
+        version: true,
+        unused: false,
+    };
+    check_against_spec(&b, o, &res, r.len());
+    witness!(res.is_err(), "rejected");
+    std::mem::forget(res);
 }
 
 macro_rules! msg_dec {
-    ($name:ident, $n:expr, $k:expr) => {
+    ($name:ident, $n:expr) => {
         pub fn $name() {
-            msg_dec_body::<$n, $k>()
+            msg_dec_body::<$n>()
         }
     };
 }
 macro_rules! msg_dec_mon {
-    ($name:ident, $n:expr, $k:expr) => {
+    ($name:ident, $n:expr) => {
         pub fn $name() {
-            msg_dec_mon_body::<$n, $k>()
+            msg_dec_mon_body::<$n>()
         }
     };
 }
-macro_rules! opts {
-    ($name:ident, $n:expr, $k:expr) => {
+macro_rules! msg_default {
+    ($name:ident, $n:expr) => {
         pub fn $name() {
-            opts_body::<$n, $k>()
-        }
-    };
-}
-macro_rules! bits {
-    ($name:ident, $n:expr, $k:expr) => {
-        pub fn $name() {
-            bits_body::<$n, $k>()
+            msg_default_body::<$n>()
         }
     };
 }
 
 // GENERATED BY gen.py — BEGIN
-//@ props=C01,C05,C08,C15,C20,C04 tier=quick unwind=4 stubs=greedy witness=rejected
-msg_dec!(msg_dec_0, 0, 0);
-//@ props=C02 tier=quick unwind=4 stubs=greedy witness=rejected
-msg_dec_mon!(msg_dec_mon_0, 0, 0);
-//@ props=C14 tier=quick unwind=4 stubs=greedy witness=
-opts!(opts_0, 0, 0);
-//@ props=C01,C05,C08,C15,C20,C04 tier=quick unwind=5 stubs=greedy witness=rejected
-msg_dec!(msg_dec_1, 1, 0);
-//@ props=C02 tier=quick unwind=5 stubs=greedy witness=rejected
-msg_dec_mon!(msg_dec_mon_1, 1, 0);
-//@ props=C14 tier=quick unwind=5 stubs=greedy witness=
-opts!(opts_1, 1, 0);
-//@ props=C01,C05,C08,C15,C20,C04 tier=quick unwind=6 stubs=greedy witness=rejected
-msg_dec!(msg_dec_2, 2, 0);
-//@ props=C02 tier=quick unwind=6 stubs=greedy witness=rejected
-msg_dec_mon!(msg_dec_mon_2, 2, 0);
-//@ props=C14 tier=quick unwind=6 stubs=greedy witness=
-opts!(opts_2, 2, 0);
-//@ props=C14 tier=quick unwind=6 stubs=greedy witness=
-bits!(bits_2, 2, 0);
-//@ props=C01,C05,C08,C15,C20,C04 tier=thorough unwind=7 stubs=greedy witness=rejected
-msg_dec!(msg_dec_3, 3, 0);
-//@ props=C02 tier=thorough unwind=7 stubs=greedy witness=rejected
-msg_dec_mon!(msg_dec_mon_3, 3, 0);
-//@ props=C14 tier=thorough unwind=7 stubs=greedy witness=
-opts!(opts_3, 3, 0);
-//@ props=C14 tier=thorough unwind=7 stubs=greedy witness=
-bits!(bits_3, 3, 0);
-//@ props=C01,C05,C08,C15,C20,C04 tier=thorough unwind=8 stubs=greedy witness=rejected
-msg_dec!(msg_dec_4, 4, 0);
-//@ props=C02 tier=thorough unwind=8 stubs=greedy witness=rejected
-msg_dec_mon!(msg_dec_mon_4, 4, 0);
-//@ props=C14 tier=thorough unwind=8 stubs=greedy witness=
-opts!(opts_4, 4, 0);
-//@ props=C14 tier=thorough unwind=8 stubs=greedy witness=
-bits!(bits_4, 4, 0);
-//@ props=C01,C05,C08,C15,C20,C04 tier=thorough unwind=9 stubs=greedy witness=rejected
-msg_dec!(msg_dec_5, 5, 0);
-//@ props=C02 tier=thorough unwind=9 stubs=greedy witness=rejected
-msg_dec_mon!(msg_dec_mon_5, 5, 0);
-//@ props=C14 tier=thorough unwind=9 stubs=greedy witness=
-opts!(opts_5, 5, 0);
-//@ props=C14 tier=thorough unwind=9 stubs=greedy witness=
-bits!(bits_5, 5, 0);
-//@ props=C01,C05,C08,C15,C20,C04 tier=quick unwind=10 stubs=greedy witness=rejected
-msg_dec!(msg_dec_6, 6, 0);
-//@ props=C02 tier=quick unwind=10 stubs=greedy witness=rejected
-msg_dec_mon!(msg_dec_mon_6, 6, 0);
-//@ props=C14 tier=quick unwind=10 stubs=greedy witness=
-opts!(opts_6, 6, 0);
-//@ props=C14 tier=quick unwind=10 stubs=greedy witness=
-bits!(bits_6, 6, 0);
-//@ props=C01,C05,C08,C15,C20,C04 tier=quick unwind=11 stubs=greedy witness=rejected,data_accepted
-msg_dec!(msg_dec_7, 7, 0);
-//@ props=C02 tier=quick unwind=11 stubs=greedy witness=rejected,data_accepted
-msg_dec_mon!(msg_dec_mon_7, 7, 0);
-//@ props=C14 tier=quick unwind=11 stubs=greedy witness=restricted,pass_and_ok
-opts!(opts_7, 7, 0);
-//@ props=C14 tier=quick unwind=11 stubs=greedy witness=flipped_and_ok
-bits!(bits_7, 7, 0);
-//@ props=C01,C05,C08,C15,C20,C04 tier=thorough unwind=12 stubs=greedy witness=rejected,data_accepted
-msg_dec!(msg_dec_8, 8, 0);
-//@ props=C02 tier=thorough unwind=12 stubs=greedy witness=rejected,data_accepted
-msg_dec_mon!(msg_dec_mon_8, 8, 0);
-//@ props=C14 tier=thorough unwind=12 stubs=greedy witness=restricted,pass_and_ok
-opts!(opts_8, 8, 0);
-//@ props=C14 tier=thorough unwind=12 stubs=greedy witness=flipped_and_ok
-bits!(bits_8, 8, 0);
-//@ props=C01,C05,C08,C15,C20,C04 tier=quick unwind=13 stubs=greedy witness=rejected,data_accepted
-msg_dec!(msg_dec_9, 9, 0);
-//@ props=C02 tier=quick unwind=13 stubs=greedy witness=rejected,data_accepted
-msg_dec_mon!(msg_dec_mon_9, 9, 0);
-//@ props=C14 tier=quick unwind=13 stubs=greedy witness=restricted,pass_and_ok
-opts!(opts_9, 9, 0);
-//@ props=C14 tier=quick unwind=13 stubs=greedy witness=flipped_and_ok
-bits!(bits_9, 9, 0);
-//@ props=C01,C05,C08,C15,C20,C04 tier=thorough unwind=14 stubs=greedy witness=rejected,data_accepted
-msg_dec!(msg_dec_10, 10, 0);
-//@ props=C02 tier=thorough unwind=14 stubs=greedy witness=rejected,data_accepted
-msg_dec_mon!(msg_dec_mon_10, 10, 0);
-//@ props=C14 tier=thorough unwind=14 stubs=greedy witness=restricted,pass_and_ok
-opts!(opts_10, 10, 0);
-//@ props=C14 tier=thorough unwind=14 stubs=greedy witness=flipped_and_ok
-bits!(bits_10, 10, 0);
-//@ props=C01,C05,C08,C15,C20,C04 tier=thorough unwind=15 stubs=greedy witness=rejected,data_accepted
-msg_dec!(msg_dec_11, 11, 0);
-//@ props=C02 tier=thorough unwind=15 stubs=greedy witness=rejected,data_accepted
-msg_dec_mon!(msg_dec_mon_11, 11, 0);
-//@ props=C14 tier=thorough unwind=15 stubs=greedy witness=restricted,pass_and_ok
-opts!(opts_11, 11, 0);
-//@ props=C14 tier=thorough unwind=15 stubs=greedy witness=flipped_and_ok
-bits!(bits_11, 11, 0);
-//@ props=C01,C05,C08,C15,C20,C04 tier=quick unwind=16 stubs=greedy witness=rejected,data_accepted,control_accepted
-msg_dec!(msg_dec_12_k0, 12, 0);
-//@ props=C02 tier=quick unwind=16 stubs=greedy witness=rejected,data_accepted,control_accepted
-msg_dec_mon!(msg_dec_mon_12_k0, 12, 0);
-//@ props=C14 tier=quick unwind=16 stubs=greedy witness=restricted,pass_and_ok
-opts!(opts_12_k0, 12, 0);
-//@ props=C14 tier=quick unwind=16 stubs=greedy witness=flipped_and_ok
-bits!(bits_12_k0, 12, 0);
-//@ props=C01,C05,C08,C15,C20,C04 tier=quick unwind=16 stubs=greedy witness=rejected,data_accepted,control_accepted
-msg_dec!(msg_dec_12_k1, 12, 1);
-//@ props=C02 tier=quick unwind=16 stubs=greedy witness=rejected,data_accepted,control_accepted
-msg_dec_mon!(msg_dec_mon_12_k1, 12, 1);
-//@ props=C14 tier=quick unwind=16 stubs=greedy witness=restricted,pass_and_ok
-opts!(opts_12_k1, 12, 1);
-//@ props=C14 tier=quick unwind=16 stubs=greedy witness=flipped_and_ok
-bits!(bits_12_k1, 12, 1);
-//@ props=C01,C05,C08,C15,C20,C04 tier=thorough unwind=16 stubs=greedy witness=rejected,data_accepted,control_accepted,errors_listed
-msg_dec!(msg_dec_12_k2, 12, 2);
-//@ props=C01,C05,C08,C15,C20,C04 tier=thorough unwind=16 stubs=greedy witness=rejected,data_accepted,control_accepted,errors_listed
-msg_dec!(msg_dec_12_k3, 12, 3);
-//@ props=C01,C05,C08,C15,C20,C04 tier=quick unwind=17 stubs=greedy witness=rejected,data_accepted,control_accepted
-msg_dec!(msg_dec_13_k0, 13, 0);
-//@ props=C02 tier=quick unwind=17 stubs=greedy witness=rejected,data_accepted,control_accepted
-msg_dec_mon!(msg_dec_mon_13_k0, 13, 0);
-//@ props=C14 tier=quick unwind=17 stubs=greedy witness=restricted,pass_and_ok
-opts!(opts_13_k0, 13, 0);
-//@ props=C14 tier=quick unwind=17 stubs=greedy witness=flipped_and_ok
-bits!(bits_13_k0, 13, 0);
-//@ props=C01,C05,C08,C15,C20,C04 tier=quick unwind=17 stubs=greedy witness=rejected,data_accepted,control_accepted
-msg_dec!(msg_dec_13_k1, 13, 1);
-//@ props=C02 tier=quick unwind=17 stubs=greedy witness=rejected,data_accepted,control_accepted
-msg_dec_mon!(msg_dec_mon_13_k1, 13, 1);
-//@ props=C14 tier=quick unwind=17 stubs=greedy witness=restricted,pass_and_ok
-opts!(opts_13_k1, 13, 1);
-//@ props=C14 tier=quick unwind=17 stubs=greedy witness=flipped_and_ok
-bits!(bits_13_k1, 13, 1);
-//@ props=C01,C05,C08,C15,C20,C04 tier=thorough unwind=17 stubs=greedy witness=rejected,data_accepted,control_accepted,errors_listed
-msg_dec!(msg_dec_13_k2, 13, 2);
-//@ props=C01,C05,C08,C15,C20,C04 tier=thorough unwind=17 stubs=greedy witness=rejected,data_accepted,control_accepted,errors_listed
-msg_dec!(msg_dec_13_k3, 13, 3);
-//@ props=C01,C05,C08,C15,C20,C04 tier=thorough unwind=18 stubs=greedy witness=rejected,data_accepted,control_accepted
-msg_dec!(msg_dec_14_k0, 14, 0);
-//@ props=C02 tier=thorough unwind=18 stubs=greedy witness=rejected,data_accepted,control_accepted
-msg_dec_mon!(msg_dec_mon_14_k0, 14, 0);
-//@ props=C14 tier=thorough unwind=18 stubs=greedy witness=restricted,pass_and_ok
-opts!(opts_14_k0, 14, 0);
-//@ props=C14 tier=thorough unwind=18 stubs=greedy witness=flipped_and_ok
-bits!(bits_14_k0, 14, 0);
-//@ props=C01,C05,C08,C15,C20,C04 tier=thorough unwind=18 stubs=greedy witness=rejected,data_accepted,control_accepted
-msg_dec!(msg_dec_14_k1, 14, 1);
-//@ props=C02 tier=thorough unwind=18 stubs=greedy witness=rejected,data_accepted,control_accepted
-msg_dec_mon!(msg_dec_mon_14_k1, 14, 1);
-//@ props=C14 tier=thorough unwind=18 stubs=greedy witness=restricted,pass_and_ok
-opts!(opts_14_k1, 14, 1);
-//@ props=C14 tier=thorough unwind=18 stubs=greedy witness=flipped_and_ok
-bits!(bits_14_k1, 14, 1);
-//@ props=C01,C05,C08,C15,C20,C04 tier=thorough unwind=18 stubs=greedy witness=rejected,data_accepted,control_accepted,errors_listed
-msg_dec!(msg_dec_14_k2, 14, 2);
-//@ props=C01,C05,C08,C15,C20,C04 tier=thorough unwind=18 stubs=greedy witness=rejected,data_accepted,control_accepted,errors_listed
-msg_dec!(msg_dec_14_k3, 14, 3);
-//@ props=C01,C05,C08,C15,C20,C04 tier=thorough unwind=19 stubs=greedy witness=rejected,data_accepted,control_accepted
-msg_dec!(msg_dec_15_k0, 15, 0);
-//@ props=C02 tier=thorough unwind=19 stubs=greedy witness=rejected,data_accepted,control_accepted
-msg_dec_mon!(msg_dec_mon_15_k0, 15, 0);
-//@ props=C14 tier=thorough unwind=19 stubs=greedy witness=restricted,pass_and_ok
-opts!(opts_15_k0, 15, 0);
-//@ props=C14 tier=thorough unwind=19 stubs=greedy witness=flipped_and_ok
-bits!(bits_15_k0, 15, 0);
-//@ props=C01,C05,C08,C15,C20,C04 tier=thorough unwind=19 stubs=greedy witness=rejected,data_accepted,control_accepted
-msg_dec!(msg_dec_15_k1, 15, 1);
-//@ props=C02 tier=thorough unwind=19 stubs=greedy witness=rejected,data_accepted,control_accepted
-msg_dec_mon!(msg_dec_mon_15_k1, 15, 1);
-//@ props=C14 tier=thorough unwind=19 stubs=greedy witness=restricted,pass_and_ok
-opts!(opts_15_k1, 15, 1);
-//@ props=C14 tier=thorough unwind=19 stubs=greedy witness=flipped_and_ok
-bits!(bits_15_k1, 15, 1);
-//@ props=C01,C05,C08,C15,C20,C04 tier=thorough unwind=19 stubs=greedy witness=rejected,data_accepted,control_accepted,errors_listed
-msg_dec!(msg_dec_15_k2, 15, 2);
-//@ props=C01,C05,C08,C15,C20,C04 tier=thorough unwind=19 stubs=greedy witness=rejected,data_accepted,control_accepted,errors_listed
-msg_dec!(msg_dec_15_k3, 15, 3);
-//@ props=C01,C05,C08,C15,C20,C04 tier=quick unwind=20 stubs=greedy witness=rejected,data_accepted,control_accepted
-msg_dec!(msg_dec_16_k0, 16, 0);
-//@ props=C02 tier=quick unwind=20 stubs=greedy witness=rejected,data_accepted,control_accepted
-msg_dec_mon!(msg_dec_mon_16_k0, 16, 0);
-//@ props=C14 tier=quick unwind=20 stubs=greedy witness=restricted,pass_and_ok
-opts!(opts_16_k0, 16, 0);
-//@ props=C14 tier=quick unwind=20 stubs=greedy witness=flipped_and_ok
-bits!(bits_16_k0, 16, 0);
-//@ props=C01,C05,C08,C15,C20,C04 tier=quick unwind=20 stubs=greedy witness=rejected,data_accepted,control_accepted
-msg_dec!(msg_dec_16_k1, 16, 1);
-//@ props=C02 tier=quick unwind=20 stubs=greedy witness=rejected,data_accepted,control_accepted
-msg_dec_mon!(msg_dec_mon_16_k1, 16, 1);
-//@ props=C14 tier=quick unwind=20 stubs=greedy witness=restricted,pass_and_ok
-opts!(opts_16_k1, 16, 1);
-//@ props=C14 tier=quick unwind=20 stubs=greedy witness=flipped_and_ok
-bits!(bits_16_k1, 16, 1);
-//@ props=C01,C05,C08,C15,C20,C04 tier=thorough unwind=20 stubs=greedy witness=rejected,data_accepted,control_accepted,errors_listed
-msg_dec!(msg_dec_16_k2, 16, 2);
-//@ props=C01,C05,C08,C15,C20,C04 tier=thorough unwind=20 stubs=greedy witness=rejected,data_accepted,control_accepted,errors_listed
-msg_dec!(msg_dec_16_k3, 16, 3);
-//@ props=C01,C05,C08,C15,C20,C04 tier=thorough unwind=21 stubs=greedy witness=rejected,data_accepted,control_accepted
-msg_dec!(msg_dec_17_k0, 17, 0);
-//@ props=C02 tier=thorough unwind=21 stubs=greedy witness=rejected,data_accepted,control_accepted
-msg_dec_mon!(msg_dec_mon_17_k0, 17, 0);
-//@ props=C14 tier=thorough unwind=21 stubs=greedy witness=restricted,pass_and_ok
-opts!(opts_17_k0, 17, 0);
-//@ props=C14 tier=thorough unwind=21 stubs=greedy witness=flipped_and_ok
-bits!(bits_17_k0, 17, 0);
-//@ props=C01,C05,C08,C15,C20,C04 tier=thorough unwind=21 stubs=greedy witness=rejected,data_accepted,control_accepted
-msg_dec!(msg_dec_17_k1, 17, 1);
-//@ props=C02 tier=thorough unwind=21 stubs=greedy witness=rejected,data_accepted,control_accepted
-msg_dec_mon!(msg_dec_mon_17_k1, 17, 1);
-//@ props=C14 tier=thorough unwind=21 stubs=greedy witness=restricted,pass_and_ok
-opts!(opts_17_k1, 17, 1);
-//@ props=C14 tier=thorough unwind=21 stubs=greedy witness=flipped_and_ok
-bits!(bits_17_k1, 17, 1);
-//@ props=C01,C05,C08,C15,C20,C04 tier=thorough unwind=21 stubs=greedy witness=rejected,data_accepted,control_accepted,errors_listed
-msg_dec!(msg_dec_17_k2, 17, 2);
-//@ props=C01,C05,C08,C15,C20,C04 tier=thorough unwind=21 stubs=greedy witness=rejected,data_accepted,control_accepted,errors_listed
-msg_dec!(msg_dec_17_k3, 17, 3);
-//@ props=C01,C05,C08,C15,C20,C04 tier=thorough unwind=22 stubs=greedy witness=rejected,data_accepted,control_accepted
-msg_dec!(msg_dec_18_k0, 18, 0);
-//@ props=C02 tier=thorough unwind=22 stubs=greedy witness=rejected,data_accepted,control_accepted
-msg_dec_mon!(msg_dec_mon_18_k0, 18, 0);
-//@ props=C14 tier=thorough unwind=22 stubs=greedy witness=restricted,pass_and_ok
-opts!(opts_18_k0, 18, 0);
-//@ props=C14 tier=thorough unwind=22 stubs=greedy witness=flipped_and_ok
-bits!(bits_18_k0, 18, 0);
-//@ props=C01,C05,C08,C15,C20,C04 tier=thorough unwind=22 stubs=greedy witness=rejected,data_accepted,control_accepted
-msg_dec!(msg_dec_18_k1, 18, 1);
-//@ props=C02 tier=thorough unwind=22 stubs=greedy witness=rejected,data_accepted,control_accepted
-msg_dec_mon!(msg_dec_mon_18_k1, 18, 1);
-//@ props=C14 tier=thorough unwind=22 stubs=greedy witness=restricted,pass_and_ok
-opts!(opts_18_k1, 18, 1);
-//@ props=C14 tier=thorough unwind=22 stubs=greedy witness=flipped_and_ok
-bits!(bits_18_k1, 18, 1);
-//@ props=C01,C05,C08,C15,C20,C04 tier=thorough unwind=22 stubs=greedy witness=rejected,data_accepted,control_accepted,errors_listed
-msg_dec!(msg_dec_18_k2, 18, 2);
-//@ props=C01,C05,C08,C15,C20,C04 tier=thorough unwind=22 stubs=greedy witness=rejected,data_accepted,control_accepted,errors_listed
-msg_dec!(msg_dec_18_k3, 18, 3);
-//@ props=C01,C05,C08,C15,C20,C04 tier=thorough unwind=23 stubs=greedy witness=rejected,data_accepted,control_accepted
-msg_dec!(msg_dec_19_k0, 19, 0);
-//@ props=C02 tier=thorough unwind=23 stubs=greedy witness=rejected,data_accepted,control_accepted
-msg_dec_mon!(msg_dec_mon_19_k0, 19, 0);
-//@ props=C14 tier=thorough unwind=23 stubs=greedy witness=restricted,pass_and_ok
-opts!(opts_19_k0, 19, 0);
-//@ props=C14 tier=thorough unwind=23 stubs=greedy witness=flipped_and_ok
-bits!(bits_19_k0, 19, 0);
-//@ props=C01,C05,C08,C15,C20,C04 tier=thorough unwind=23 stubs=greedy witness=rejected,data_accepted,control_accepted
-msg_dec!(msg_dec_19_k1, 19, 1);
-//@ props=C02 tier=thorough unwind=23 stubs=greedy witness=rejected,data_accepted,control_accepted
-msg_dec_mon!(msg_dec_mon_19_k1, 19, 1);
-//@ props=C14 tier=thorough unwind=23 stubs=greedy witness=restricted,pass_and_ok
-opts!(opts_19_k1, 19, 1);
-//@ props=C14 tier=thorough unwind=23 stubs=greedy witness=flipped_and_ok
-bits!(bits_19_k1, 19, 1);
-//@ props=C01,C05,C08,C15,C20,C04 tier=thorough unwind=23 stubs=greedy witness=rejected,data_accepted,control_accepted,errors_listed
-msg_dec!(msg_dec_19_k2, 19, 2);
-//@ props=C01,C05,C08,C15,C20,C04 tier=thorough unwind=23 stubs=greedy witness=rejected,data_accepted,control_accepted,errors_listed
-msg_dec!(msg_dec_19_k3, 19, 3);
-//@ props=C01,C05,C08,C15,C20,C04 tier=thorough unwind=24 stubs=greedy witness=rejected,data_accepted,control_accepted
-msg_dec!(msg_dec_20_k0, 20, 0);
-//@ props=C02 tier=thorough unwind=24 stubs=greedy witness=rejected,data_accepted,control_accepted
-msg_dec_mon!(msg_dec_mon_20_k0, 20, 0);
-//@ props=C14 tier=thorough unwind=24 stubs=greedy witness=restricted,pass_and_ok
-opts!(opts_20_k0, 20, 0);
-//@ props=C14 tier=thorough unwind=24 stubs=greedy witness=flipped_and_ok
-bits!(bits_20_k0, 20, 0);
-//@ props=C01,C05,C08,C15,C20,C04 tier=thorough unwind=24 stubs=greedy witness=rejected,data_accepted,control_accepted
-msg_dec!(msg_dec_20_k1, 20, 1);
-//@ props=C02 tier=thorough unwind=24 stubs=greedy witness=rejected,data_accepted,control_accepted
-msg_dec_mon!(msg_dec_mon_20_k1, 20, 1);
-//@ props=C14 tier=thorough unwind=24 stubs=greedy witness=restricted,pass_and_ok
-opts!(opts_20_k1, 20, 1);
-//@ props=C14 tier=thorough unwind=24 stubs=greedy witness=flipped_and_ok
-bits!(bits_20_k1, 20, 1);
-//@ props=C01,C05,C08,C15,C20,C04 tier=thorough unwind=24 stubs=greedy witness=rejected,data_accepted,control_accepted,errors_listed
-msg_dec!(msg_dec_20_k2, 20, 2);
-//@ props=C01,C05,C08,C15,C20,C04 tier=thorough unwind=24 stubs=greedy witness=rejected,data_accepted,control_accepted,errors_listed
-msg_dec!(msg_dec_20_k3, 20, 3);
+//@ props=C01,C05,C08,C14,C15,C20,C04 tier=quick unwind=4 stubs=greedy0 witness=rejected
+msg_dec!(msg_dec_0, 0);
+//@ props=C02 tier=quick unwind=4 stubs=greedy0 witness=rejected
+msg_dec_mon!(msg_dec_mon_0, 0);
+//@ props=C14 tier=quick unwind=4 stubs=greedy0 witness=rejected
+msg_default!(msg_default_0, 0);
+//@ props=C01,C05,C08,C14,C15,C20,C04 tier=quick unwind=5 stubs=greedy0 witness=rejected
+msg_dec!(msg_dec_1, 1);
+//@ props=C02 tier=quick unwind=5 stubs=greedy0 witness=rejected
+msg_dec_mon!(msg_dec_mon_1, 1);
+//@ props=C14 tier=quick unwind=5 stubs=greedy0 witness=rejected
+msg_default!(msg_default_1, 1);
+//@ props=C01,C05,C08,C14,C15,C20,C04 tier=quick unwind=6 stubs=greedy0 witness=rejected
+msg_dec!(msg_dec_2, 2);
+//@ props=C02 tier=quick unwind=6 stubs=greedy0 witness=rejected
+msg_dec_mon!(msg_dec_mon_2, 2);
+//@ props=C14 tier=quick unwind=6 stubs=greedy0 witness=rejected
+msg_default!(msg_default_2, 2);
+//@ props=C01,C05,C08,C14,C15,C20,C04 tier=thorough unwind=7 stubs=greedy0 witness=rejected
+msg_dec!(msg_dec_3, 3);
+//@ props=C02 tier=thorough unwind=7 stubs=greedy0 witness=rejected
+msg_dec_mon!(msg_dec_mon_3, 3);
+//@ props=C14 tier=thorough unwind=7 stubs=greedy0 witness=rejected
+msg_default!(msg_default_3, 3);
+//@ props=C01,C05,C08,C14,C15,C20,C04 tier=thorough unwind=8 stubs=greedy0 witness=rejected
+msg_dec!(msg_dec_4, 4);
+//@ props=C02 tier=thorough unwind=8 stubs=greedy0 witness=rejected
+msg_dec_mon!(msg_dec_mon_4, 4);
+//@ props=C14 tier=thorough unwind=8 stubs=greedy0 witness=rejected
+msg_default!(msg_default_4, 4);
+//@ props=C01,C05,C08,C14,C15,C20,C04 tier=thorough unwind=9 stubs=greedy0 witness=rejected
+msg_dec!(msg_dec_5, 5);
+//@ props=C02 tier=thorough unwind=9 stubs=greedy0 witness=rejected
+msg_dec_mon!(msg_dec_mon_5, 5);
+//@ props=C14 tier=thorough unwind=9 stubs=greedy0 witness=rejected
+msg_default!(msg_default_5, 5);
+//@ props=C01,C05,C08,C14,C15,C20,C04 tier=quick unwind=10 stubs=greedy0 witness=rejected
+msg_dec!(msg_dec_6, 6);
+//@ props=C02 tier=quick unwind=10 stubs=greedy0 witness=rejected
+msg_dec_mon!(msg_dec_mon_6, 6);
+//@ props=C14 tier=quick unwind=10 stubs=greedy0 witness=rejected
+msg_default!(msg_default_6, 6);
+//@ props=C01,C05,C08,C14,C15,C20,C04 tier=quick unwind=11 stubs=greedy0 witness=rejected,data_accepted
+msg_dec!(msg_dec_7, 7);
+//@ props=C02 tier=quick unwind=11 stubs=greedy0 witness=rejected,data_accepted
+msg_dec_mon!(msg_dec_mon_7, 7);
+//@ props=C14 tier=quick unwind=11 stubs=greedy0 witness=rejected,data_accepted
+msg_default!(msg_default_7, 7);
+//@ props=C01,C05,C08,C14,C15,C20,C04 tier=thorough unwind=12 stubs=greedy0 witness=rejected,data_accepted
+msg_dec!(msg_dec_8, 8);
+//@ props=C02 tier=thorough unwind=12 stubs=greedy0 witness=rejected,data_accepted
+msg_dec_mon!(msg_dec_mon_8, 8);
+//@ props=C14 tier=thorough unwind=12 stubs=greedy0 witness=rejected,data_accepted
+msg_default!(msg_default_8, 8);
+//@ props=C01,C05,C08,C14,C15,C20,C04 tier=quick unwind=13 stubs=greedy0 witness=rejected,data_accepted
+msg_dec!(msg_dec_9, 9);
+//@ props=C02 tier=quick unwind=13 stubs=greedy0 witness=rejected,data_accepted
+msg_dec_mon!(msg_dec_mon_9, 9);
+//@ props=C14 tier=quick unwind=13 stubs=greedy0 witness=rejected,data_accepted
+msg_default!(msg_default_9, 9);
+//@ props=C01,C05,C08,C14,C15,C20,C04 tier=thorough unwind=14 stubs=greedy0 witness=rejected,data_accepted
+msg_dec!(msg_dec_10, 10);
+//@ props=C02 tier=thorough unwind=14 stubs=greedy0 witness=rejected,data_accepted
+msg_dec_mon!(msg_dec_mon_10, 10);
+//@ props=C14 tier=thorough unwind=14 stubs=greedy0 witness=rejected,data_accepted
+msg_default!(msg_default_10, 10);
+//@ props=C01,C05,C08,C14,C15,C20,C04 tier=thorough unwind=15 stubs=greedy0 witness=rejected,data_accepted
+msg_dec!(msg_dec_11, 11);
+//@ props=C02 tier=thorough unwind=15 stubs=greedy0 witness=rejected,data_accepted
+msg_dec_mon!(msg_dec_mon_11, 11);
+//@ props=C14 tier=thorough unwind=15 stubs=greedy0 witness=rejected,data_accepted
+msg_default!(msg_default_11, 11);
+//@ props=C01,C05,C08,C14,C15,C20,C04 tier=quick unwind=16 stubs=greedy0 witness=rejected,data_accepted,control_accepted
+msg_dec!(msg_dec_12, 12);
+//@ props=C02 tier=quick unwind=16 stubs=greedy0 witness=rejected,data_accepted,control_accepted
+msg_dec_mon!(msg_dec_mon_12, 12);
+//@ props=C14 tier=quick unwind=16 stubs=greedy0 witness=rejected,data_accepted,control_accepted
+msg_default!(msg_default_12, 12);
+//@ props=C01,C05,C08,C14,C15,C20,C04 tier=quick unwind=17 stubs=greedy0 witness=rejected,data_accepted,control_accepted
+msg_dec!(msg_dec_13, 13);
+//@ props=C02 tier=quick unwind=17 stubs=greedy0 witness=rejected,data_accepted,control_accepted
+msg_dec_mon!(msg_dec_mon_13, 13);
+//@ props=C14 tier=quick unwind=17 stubs=greedy0 witness=rejected,data_accepted,control_accepted
+msg_default!(msg_default_13, 13);
+//@ props=C01,C05,C08,C14,C15,C20,C04 tier=thorough unwind=18 stubs=greedy0 witness=rejected,data_accepted,control_accepted
+msg_dec!(msg_dec_14, 14);
+//@ props=C02 tier=thorough unwind=18 stubs=greedy0 witness=rejected,data_accepted,control_accepted
+msg_dec_mon!(msg_dec_mon_14, 14);
+//@ props=C14 tier=thorough unwind=18 stubs=greedy0 witness=rejected,data_accepted,control_accepted
+msg_default!(msg_default_14, 14);
+//@ props=C01,C05,C08,C14,C15,C20,C04 tier=thorough unwind=19 stubs=greedy0 witness=rejected,data_accepted,control_accepted
+msg_dec!(msg_dec_15, 15);
+//@ props=C02 tier=thorough unwind=19 stubs=greedy0 witness=rejected,data_accepted,control_accepted
+msg_dec_mon!(msg_dec_mon_15, 15);
+//@ props=C14 tier=thorough unwind=19 stubs=greedy0 witness=rejected,data_accepted,control_accepted
+msg_default!(msg_default_15, 15);
+//@ props=C01,C05,C08,C14,C15,C20,C04 tier=quick unwind=20 stubs=greedy0 witness=rejected,data_accepted,control_accepted
+msg_dec!(msg_dec_16, 16);
+//@ props=C02 tier=quick unwind=20 stubs=greedy0 witness=rejected,data_accepted,control_accepted
+msg_dec_mon!(msg_dec_mon_16, 16);
+//@ props=C14 tier=quick unwind=20 stubs=greedy0 witness=rejected,data_accepted,control_accepted
+msg_default!(msg_default_16, 16);
+//@ props=C01,C05,C08,C14,C15,C20,C04 tier=thorough unwind=21 stubs=greedy0 witness=rejected,data_accepted,control_accepted
+msg_dec!(msg_dec_17, 17);
+//@ props=C02 tier=thorough unwind=21 stubs=greedy0 witness=rejected,data_accepted,control_accepted
+msg_dec_mon!(msg_dec_mon_17, 17);
+//@ props=C14 tier=thorough unwind=21 stubs=greedy0 witness=rejected,data_accepted,control_accepted
+msg_default!(msg_default_17, 17);
+//@ props=C01,C05,C08,C14,C15,C20,C04 tier=thorough unwind=22 stubs=greedy0 witness=rejected,data_accepted,control_accepted
+msg_dec!(msg_dec_18, 18);
+//@ props=C02 tier=thorough unwind=22 stubs=greedy0 witness=rejected,data_accepted,control_accepted
+msg_dec_mon!(msg_dec_mon_18, 18);
+//@ props=C14 tier=thorough unwind=22 stubs=greedy0 witness=rejected,data_accepted,control_accepted
+msg_default!(msg_default_18, 18);
+//@ props=C01,C05,C08,C14,C15,C20,C04 tier=thorough unwind=23 stubs=greedy0 witness=rejected,data_accepted,control_accepted
+msg_dec!(msg_dec_19, 19);
+//@ props=C02 tier=thorough unwind=23 stubs=greedy0 witness=rejected,data_accepted,control_accepted
+msg_dec_mon!(msg_dec_mon_19, 19);
+//@ props=C14 tier=thorough unwind=23 stubs=greedy0 witness=rejected,data_accepted,control_accepted
+msg_default!(msg_default_19, 19);
+//@ props=C01,C05,C08,C14,C15,C20,C04 tier=thorough unwind=24 stubs=greedy0 witness=rejected,data_accepted,control_accepted
+msg_dec!(msg_dec_20, 20);
+//@ props=C02 tier=thorough unwind=24 stubs=greedy0 witness=rejected,data_accepted,control_accepted
+msg_dec_mon!(msg_dec_mon_20, 20);
+//@ props=C14 tier=thorough unwind=24 stubs=greedy0 witness=rejected,data_accepted,control_accepted
+msg_default!(msg_default_20, 20);
+//@ props=C01,C05,C08,C14,C15,C20,C04 tier=thorough unwind=25 stubs=greedy0 witness=rejected,data_accepted,control_accepted
+msg_dec!(msg_dec_21, 21);
+//@ props=C02 tier=thorough unwind=25 stubs=greedy0 witness=rejected,data_accepted,control_accepted
+msg_dec_mon!(msg_dec_mon_21, 21);
+//@ props=C14 tier=thorough unwind=25 stubs=greedy0 witness=rejected,data_accepted,control_accepted
+msg_default!(msg_default_21, 21);
+//@ props=C01,C05,C08,C14,C15,C20,C04 tier=thorough unwind=26 stubs=greedy0 witness=rejected,data_accepted,control_accepted
+msg_dec!(msg_dec_22, 22);
+//@ props=C02 tier=thorough unwind=26 stubs=greedy0 witness=rejected,data_accepted,control_accepted
+msg_dec_mon!(msg_dec_mon_22, 22);
+//@ props=C14 tier=thorough unwind=26 stubs=greedy0 witness=rejected,data_accepted,control_accepted
+msg_default!(msg_default_22, 22);
+//@ props=C01,C05,C08,C14,C15,C20,C04 tier=thorough unwind=27 stubs=greedy0 witness=rejected,data_accepted,control_accepted
+msg_dec!(msg_dec_23, 23);
+//@ props=C02 tier=thorough unwind=27 stubs=greedy0 witness=rejected,data_accepted,control_accepted
+msg_dec_mon!(msg_dec_mon_23, 23);
+//@ props=C14 tier=thorough unwind=27 stubs=greedy0 witness=rejected,data_accepted,control_accepted
+msg_default!(msg_default_23, 23);
+//@ props=C01,C05,C08,C14,C15,C20,C04 tier=thorough unwind=28 stubs=greedy0 witness=rejected,data_accepted,control_accepted
+msg_dec!(msg_dec_24, 24);
+//@ props=C02 tier=thorough unwind=28 stubs=greedy0 witness=rejected,data_accepted,control_accepted
+msg_dec_mon!(msg_dec_mon_24, 24);
+//@ props=C14 tier=thorough unwind=28 stubs=greedy0 witness=rejected,data_accepted,control_accepted
+msg_default!(msg_default_24, 24);
 
 pub const HARNESSES: &[(&str, fn())] = &[
     ("msg_dec_0", msg_dec_0),
     ("msg_dec_mon_0", msg_dec_mon_0),
-    ("opts_0", opts_0),
+    ("msg_default_0", msg_default_0),
     ("msg_dec_1", msg_dec_1),
     ("msg_dec_mon_1", msg_dec_mon_1),
-    ("opts_1", opts_1),
+    ("msg_default_1", msg_default_1),
     ("msg_dec_2", msg_dec_2),
     ("msg_dec_mon_2", msg_dec_mon_2),
-    ("opts_2", opts_2),
-    ("bits_2", bits_2),
+    ("msg_default_2", msg_default_2),
     ("msg_dec_3", msg_dec_3),
     ("msg_dec_mon_3", msg_dec_mon_3),
-    ("opts_3", opts_3),
-    ("bits_3", bits_3),
+    ("msg_default_3", msg_default_3),
     ("msg_dec_4", msg_dec_4),
     ("msg_dec_mon_4", msg_dec_mon_4),
-    ("opts_4", opts_4),
-    ("bits_4", bits_4),
+    ("msg_default_4", msg_default_4),
     ("msg_dec_5", msg_dec_5),
     ("msg_dec_mon_5", msg_dec_mon_5),
-    ("opts_5", opts_5),
-    ("bits_5", bits_5),
+    ("msg_default_5", msg_default_5),
     ("msg_dec_6", msg_dec_6),
     ("msg_dec_mon_6", msg_dec_mon_6),
-    ("opts_6", opts_6),
-    ("bits_6", bits_6),
+    ("msg_default_6", msg_default_6),
     ("msg_dec_7", msg_dec_7),
     ("msg_dec_mon_7", msg_dec_mon_7),
-    ("opts_7", opts_7),
-    ("bits_7", bits_7),
+    ("msg_default_7", msg_default_7),
     ("msg_dec_8", msg_dec_8),
     ("msg_dec_mon_8", msg_dec_mon_8),
-    ("opts_8", opts_8),
-    ("bits_8", bits_8),
+    ("msg_default_8", msg_default_8),
     ("msg_dec_9", msg_dec_9),
     ("msg_dec_mon_9", msg_dec_mon_9),
-    ("opts_9", opts_9),
-    ("bits_9", bits_9),
+    ("msg_default_9", msg_default_9),
     ("msg_dec_10", msg_dec_10),
     ("msg_dec_mon_10", msg_dec_mon_10),
-    ("opts_10", opts_10),
-    ("bits_10", bits_10),
+    ("msg_default_10", msg_default_10),
     ("msg_dec_11", msg_dec_11),
     ("msg_dec_mon_11", msg_dec_mon_11),
-    ("opts_11", opts_11),
-    ("bits_11", bits_11),
-    ("msg_dec_12_k0", msg_dec_12_k0),
-    ("msg_dec_mon_12_k0", msg_dec_mon_12_k0),
-    ("opts_12_k0", opts_12_k0),
-    ("bits_12_k0", bits_12_k0),
-    ("msg_dec_12_k1", msg_dec_12_k1),
-    ("msg_dec_mon_12_k1", msg_dec_mon_12_k1),
-    ("opts_12_k1", opts_12_k1),
-    ("bits_12_k1", bits_12_k1),
-    ("msg_dec_12_k2", msg_dec_12_k2),
-    ("msg_dec_12_k3", msg_dec_12_k3),
-    ("msg_dec_13_k0", msg_dec_13_k0),
-    ("msg_dec_mon_13_k0", msg_dec_mon_13_k0),
-    ("opts_13_k0", opts_13_k0),
-    ("bits_13_k0", bits_13_k0),
-    ("msg_dec_13_k1", msg_dec_13_k1),
-    ("msg_dec_mon_13_k1", msg_dec_mon_13_k1),
-    ("opts_13_k1", opts_13_k1),
-    ("bits_13_k1", bits_13_k1),
-    ("msg_dec_13_k2", msg_dec_13_k2),
-    ("msg_dec_13_k3", msg_dec_13_k3),
-    ("msg_dec_14_k0", msg_dec_14_k0),
-    ("msg_dec_mon_14_k0", msg_dec_mon_14_k0),
-    ("opts_14_k0", opts_14_k0),
-    ("bits_14_k0", bits_14_k0),
-    ("msg_dec_14_k1", msg_dec_14_k1),
-    ("msg_dec_mon_14_k1", msg_dec_mon_14_k1),
-    ("opts_14_k1", opts_14_k1),
-    ("bits_14_k1", bits_14_k1),
-    ("msg_dec_14_k2", msg_dec_14_k2),
-    ("msg_dec_14_k3", msg_dec_14_k3),
-    ("msg_dec_15_k0", msg_dec_15_k0),
-    ("msg_dec_mon_15_k0", msg_dec_mon_15_k0),
-    ("opts_15_k0", opts_15_k0),
-    ("bits_15_k0", bits_15_k0),
-    ("msg_dec_15_k1", msg_dec_15_k1),
-    ("msg_dec_mon_15_k1", msg_dec_mon_15_k1),
-    ("opts_15_k1", opts_15_k1),
-    ("bits_15_k1", bits_15_k1),
-    ("msg_dec_15_k2", msg_dec_15_k2),
-    ("msg_dec_15_k3", msg_dec_15_k3),
-    ("msg_dec_16_k0", msg_dec_16_k0),
-    ("msg_dec_mon_16_k0", msg_dec_mon_16_k0),
-    ("opts_16_k0", opts_16_k0),
-    ("bits_16_k0", bits_16_k0),
-    ("msg_dec_16_k1", msg_dec_16_k1),
-    ("msg_dec_mon_16_k1", msg_dec_mon_16_k1),
-    ("opts_16_k1", opts_16_k1),
-    ("bits_16_k1", bits_16_k1),
-    ("msg_dec_16_k2", msg_dec_16_k2),
-    ("msg_dec_16_k3", msg_dec_16_k3),
-    ("msg_dec_17_k0", msg_dec_17_k0),
-    ("msg_dec_mon_17_k0", msg_dec_mon_17_k0),
-    ("opts_17_k0", opts_17_k0),
-    ("bits_17_k0", bits_17_k0),
-    ("msg_dec_17_k1", msg_dec_17_k1),
-    ("msg_dec_mon_17_k1", msg_dec_mon_17_k1),
-    ("opts_17_k1", opts_17_k1),
-    ("bits_17_k1", bits_17_k1),
-    ("msg_dec_17_k2", msg_dec_17_k2),
-    ("msg_dec_17_k3", msg_dec_17_k3),
-    ("msg_dec_18_k0", msg_dec_18_k0),
-    ("msg_dec_mon_18_k0", msg_dec_mon_18_k0),
-    ("opts_18_k0", opts_18_k0),
-    ("bits_18_k0", bits_18_k0),
-    ("msg_dec_18_k1", msg_dec_18_k1),
-    ("msg_dec_mon_18_k1", msg_dec_mon_18_k1),
-    ("opts_18_k1", opts_18_k1),
-    ("bits_18_k1", bits_18_k1),
-    ("msg_dec_18_k2", msg_dec_18_k2),
-    ("msg_dec_18_k3", msg_dec_18_k3),
-    ("msg_dec_19_k0", msg_dec_19_k0),
-    ("msg_dec_mon_19_k0", msg_dec_mon_19_k0),
-    ("opts_19_k0", opts_19_k0),
-    ("bits_19_k0", bits_19_k0),
-    ("msg_dec_19_k1", msg_dec_19_k1),
-    ("msg_dec_mon_19_k1", msg_dec_mon_19_k1),
-    ("opts_19_k1", opts_19_k1),
-    ("bits_19_k1", bits_19_k1),
-    ("msg_dec_19_k2", msg_dec_19_k2),
-    ("msg_dec_19_k3", msg_dec_19_k3),
-    ("msg_dec_20_k0", msg_dec_20_k0),
-    ("msg_dec_mon_20_k0", msg_dec_mon_20_k0),
-    ("opts_20_k0", opts_20_k0),
-    ("bits_20_k0", bits_20_k0),
-    ("msg_dec_20_k1", msg_dec_20_k1),
-    ("msg_dec_mon_20_k1", msg_dec_mon_20_k1),
-    ("opts_20_k1", opts_20_k1),
-    ("bits_20_k1", bits_20_k1),
-    ("msg_dec_20_k2", msg_dec_20_k2),
-    ("msg_dec_20_k3", msg_dec_20_k3),
+    ("msg_default_11", msg_default_11),
+    ("msg_dec_12", msg_dec_12),
+    ("msg_dec_mon_12", msg_dec_mon_12),
+    ("msg_default_12", msg_default_12),
+    ("msg_dec_13", msg_dec_13),
+    ("msg_dec_mon_13", msg_dec_mon_13),
+    ("msg_default_13", msg_default_13),
+    ("msg_dec_14", msg_dec_14),
+    ("msg_dec_mon_14", msg_dec_mon_14),
+    ("msg_default_14", msg_default_14),
+    ("msg_dec_15", msg_dec_15),
+    ("msg_dec_mon_15", msg_dec_mon_15),
+    ("msg_default_15", msg_default_15),
+    ("msg_dec_16", msg_dec_16),
+    ("msg_dec_mon_16", msg_dec_mon_16),
+    ("msg_default_16", msg_default_16),
+    ("msg_dec_17", msg_dec_17),
+    ("msg_dec_mon_17", msg_dec_mon_17),
+    ("msg_default_17", msg_default_17),
+    ("msg_dec_18", msg_dec_18),
+    ("msg_dec_mon_18", msg_dec_mon_18),
+    ("msg_default_18", msg_default_18),
+    ("msg_dec_19", msg_dec_19),
+    ("msg_dec_mon_19", msg_dec_mon_19),
+    ("msg_default_19", msg_default_19),
+    ("msg_dec_20", msg_dec_20),
+    ("msg_dec_mon_20", msg_dec_mon_20),
+    ("msg_default_20", msg_default_20),
+    ("msg_dec_21", msg_dec_21),
+    ("msg_dec_mon_21", msg_dec_mon_21),
+    ("msg_default_21", msg_default_21),
+    ("msg_dec_22", msg_dec_22),
+    ("msg_dec_mon_22", msg_dec_mon_22),
+    ("msg_default_22", msg_default_22),
+    ("msg_dec_23", msg_dec_23),
+    ("msg_dec_mon_23", msg_dec_mon_23),
+    ("msg_default_23", msg_default_23),
+    ("msg_dec_24", msg_dec_24),
+    ("msg_dec_mon_24", msg_dec_mon_24),
+    ("msg_default_24", msg_default_24),
 ];
 // GENERATED BY gen.py — END
